@@ -526,10 +526,18 @@ class _Peer:
             self.done = True
         except Stop as s:
             self.stop = s
+            self._hangup()               # the script cannot go on: let the other side see EOF instead of waiting for us
         except Exception as e:           # harness bug: surfaced by the caller
             self.error = repr(e)
             import traceback
             self.error += "\n" + traceback.format_exc()
+            self._hangup()
+
+    def _hangup(self):
+        try:
+            self.sock.shutdown(socket.SHUT_RDWR)
+        except OSError:
+            pass
 
     def start_thread(self):
         self.thread = threading.Thread(target=self.run, daemon=True)
